@@ -107,7 +107,8 @@ def worker(prog, key):
             key_ = "C20:leak:%s:%s:exit@%s" % (base, site_key(r), _exit_desc(fn, path, rv))
             finds.setdefault(key_, dict(key=key_, rule="A-leak", where="%s:%s" % (fn.file, line),
                                         text="%s: the block allocated at %s is still owned (not freed) when the function returns through line %s" % (base, site, line)))
-    return dict(findings=list(finds.values()), returns=nret, states=eng.nstates, precision=eng.precision, failure_fork=split)
+    und = sorted("%s of %s (line %s)" % (k_, site_name(r_), l_) for (k_, r_, l_) in getattr(eng.plugin, "undecided", ()))
+    return dict(findings=list(finds.values()), returns=nret, states=eng.nstates, precision=eng.precision, failure_fork=split, undecided=und)
 
 
 def conv_fail(fn, rv, eng, facts):
@@ -172,7 +173,7 @@ def run(ck):
         if "budget" in r:
             ck.fail_broken("path-state budget exceeded: " + r["budget"]); continue
         nret += r["returns"]
-        per[k[1]] = dict(sites=len(ss[k]), return_paths=r["returns"], states=r["states"], precision=r["precision"], findings=len(r["findings"]), failure_fork=r.get("failure_fork"))
+        per[k[1]] = dict(sites=len(ss[k]), return_paths=r["returns"], states=r["states"], precision=r["precision"], findings=len(r["findings"]), failure_fork=r.get("failure_fork"), not_decided_at_this_precision=r.get("undecided"))
         for f in r["findings"]:
             ck.report(f["key"], f["rule"], f["where"], f["text"])
     for n in list(per)[:6]:
